@@ -34,7 +34,7 @@ RULE = ("random scripts N=8..40 indices; distinct = canonical script JSON; non-t
 REQUIRED_BUCKETS = ["primary-closed", "primary-raises", "primary-raises-while-fallback-in-step", "fallback-closed", "fallback-late-start", "lag:-1", "lag:0",
                     "lag:1", "lag:2", "recovery-to-primary", "both-invalid", "fallback-value-used",
                     "primary-closed-before-any-failure", "other-terms:0", "other-terms:2",
-                    "tier-B(real FallbackFormulaMetricFetcher)", "tier-B:pv-meter", "tier-B:grid-successor-meters", "tier-B:grid-successor-meters-reactive", "tier-B:producer-chp-meter", "tier-B:grid-successor-ev-meter", "tier-B:grid-successor-battery-meter",
+                    "tier-B(real FallbackFormulaMetricFetcher)", "tier-B:pv-meter", "tier-B:grid-successor-meters", "tier-B:grid-successor-meters-reactive", "tier-B:producer-chp-meter", "tier-B:grid-successor-ev-meter", "tier-B:grid-successor-battery-meter", "tier-B:battery-also-fed-from-the-other-meter",
                     "term-with-fallback-and-nones-are-zeros"]
 REQUIRED_COUNTERS = ["outputs_decoded", "scripts_run"]
 ASSUMPTIONS = ["tier A: the fallback is a test double at the public FallbackMetricFetcher seam; tier B: real PVPowerFormula + "
@@ -293,6 +293,11 @@ async def _drive_b(case: dict[str, Any], out: dict[str, Any]) -> None:
             comps += [Component(4, C.INVERTER, InverterType.BATTERY), Component(5, C.INVERTER, InverterType.BATTERY),
                       Component(8, C.BATTERY), Component(9, C.BATTERY)]
             conns += [Connection(4, 8), Connection(5, 9)]
+            if case["N"] % 2:
+                # battery 9 is also fed by an inverter behind the *other* meter (7, then a battery inverter): the
+                # fallback of meter 3 is still the sum of its own inverters 4 and 5
+                comps[3] = Component(7, C.INVERTER, InverterType.BATTERY)
+                conns.append(Connection(7, 9))
         formula_cls = GridPowerFormula
     else:
         comps = [Component(1, C.GRID), Component(2, C.METER), Component(3, C.METER), Component(6, C.METER),
@@ -389,6 +394,8 @@ def check(case: dict[str, Any], rec: Any) -> None:
     if case.get("tier") == "B":
         rec.bucket("tier-B(real FallbackFormulaMetricFetcher)")
         rec.bucket("tier-B:" + case.get("topo", "pv-meter"))
+        if case.get("topo") == "grid-successor-battery-meter" and case["N"] % 2:
+            rec.bucket("tier-B:battery-also-fed-from-the-other-meter")
         run_virtual(lambda: _drive_b(case, out), monitor=mon)
     else:
         run_virtual(lambda: _drive(case, out), monitor=mon)
